@@ -38,6 +38,11 @@ def shards(tier: str, seed: int) -> List[Dict[str, Any]]:
             # the small configuration gets the eager part (eager execution is slow), the default the rest
             for i, c in enumerate(cfgs[:2]):
                 out.append({"id": f"{e}|{c['id']}", "env": e, "cfg": c, "eager": i == 1 or len(cfgs) == 1, "weight": HEAVY.get(e, 1.0)})
+            for c in cfgs[2:]:
+                # configurations with non-default constructor objects (custom reward coefficients / rewards): state
+                # shared between instances of a class shows up only here
+                if "reward_coeffs" in c or "rewards" in c:
+                    out.append({"id": f"{e}|{c['id']}", "env": e, "cfg": c, "eager": True, "weight": HEAVY.get(e, 1.0)})
         else:
             for i, c in enumerate(cfgs[:4]):
                 out.append({"id": f"{e}|{c['id']}", "env": e, "cfg": c, "eager": i in (1, 2), "xproc": i == 0, "weight": HEAVY.get(e, 1.0)})
@@ -217,6 +222,17 @@ def run_shard(shard: Dict[str, Any], rep: Report) -> None:
         k2 = jax.random.PRNGKey(10_000 + j)
         s_, t_ = runner.reset(k2)
         runner.step(s_, A.sample_random(runner.spec, rng))
+    # other instances of the same class (default and sibling configurations) are constructed and used in between:
+    # class-level or module-level shared state would leak into `env`
+    try:
+        for oc in E.configs(name, "quick")[:2]:
+            if oc["id"] != cid:
+                other = E.build(name, oc)
+                os_, ot_ = jax.jit(other.reset)(jax.random.PRNGKey(3))
+                jax.jit(other.step)(os_, A.as_action(other.action_spec, A.sample_random(other.action_spec, rng)))
+                rep.count("sibling_instances_built")
+    except Exception as e:
+        rep.notes.append(f"sibling instance of {name} could not be built: {e!r}"[:200])
     try:
         jax.jit(env.reset)(jax.random.PRNGKey(77))
         jax.jit(jax.vmap(env.reset))(jax.random.split(jax.random.PRNGKey(5), 2))
